@@ -96,6 +96,14 @@ def check_law(case):
         want = ec.mul(k, Pt)
         got = attempt(em.point_scalar_mul, k, Pt)
         f.expect(not raised(got) and got == want, f"mul/ne-reference/{sc}", repr(got)[:120])
+        if sc != "generic" or k % 3 == 0:
+            # the base-point multiplication of the anchored bip32 module (BIP32's point(p)): the same group law, all scalars
+            import bits.bips.bip32 as b32
+
+            wg = ec.mul(k, ec.G)
+            gg = attempt(b32.point, k)
+            cls.append("nt:bip32-point/scalar-" + sc if sc != "generic" else "nt:bip32-point")
+            f.expect(not raised(gg) and (gg is None if wg is None else seq(gg) == wg), f"bip32.point/ne-kG/{sc}", repr(gg)[:120])
     elif op == "distrib":
         a, b, c = case["a"], case["b"], case["c"]
         Pt = _pt(c) if c % N else ec.G
@@ -356,7 +364,7 @@ def targets(tier):
     return [
         Target("law-secp", check_law, strategy=lambda tier: law_cases(), budget={"quick": 640, "thorough": 10000},
                required=["nt:pair-identity", "nt:pair-doubling", "nt:pair-inverse", "nt:pair-same-or-negated-y-different-x", "nt:scalar-boundary", "nt:identity-distrib", "nt:identity-assoc", "nt:off-curve", "nt:mul-identity-operand",
-                         "nt:after-mod-n-division-by-the-slope-denominator", "nt:operand-coordinate-in-n..p"]),
+                         "nt:after-mod-n-division-by-the-slope-denominator", "nt:operand-coordinate-in-n..p", "nt:bip32-point/scalar-boundary"]),
         Target("law-small", check_small, enumerate_=enum_small, exhaustive=True, required=["nt:small-after-ecdsa-verify"]),
         Target("privkey", check_privkey, strategy=lambda tier: privkey_cases(), budget={"quick": 1500, "thorough": 30000},
                required=["nt:invalid-len", "nt:invalid-range", "nt:valid-boundary-or-leading-zero", "nt:valid-key-reads-as-text", "nt:public-point-short-x", "nt:public-point-short-y"]),
